@@ -110,7 +110,14 @@ Definition local_clean_b (s : schema) : bool :=
 Lemma local_clean_b_sound s : local_clean_b s = true -> local_clean finP allow_null allow_arr OR s.
 Proof.
   intros H. unfold local_clean_b in H. repeat (apply andb_true_iff in H; let H' := fresh "L" in destruct H as [H H']).
-  unfold local_clean, array_clean, object_clean, comp_clean, bounds_fin, nullsafe.
+  assert (HF : fmt_clean allow_arr s).
+  { unfold fmt_clean. apply orb_true_iff in L12. destruct L12 as [E | E].
+    - apply orb_true_iff in E. destruct E as [E | E]; [left; apply Z.eqb_eq; exact E | right; left; exact E].
+    - destruct (contains k_number (s_types s) || contains k_integer (s_types s)) eqn:En; [right; left; reflexivity|].
+      right. right. apply andb_true_iff in E. destruct E as [E1 E2]. split; [reflexivity|]. split; [exact E1|].
+      intros Ha. rewrite Ha in E2. exact E2. }
+  split; [|exact HF].
+  unfold local_clean0, array_clean, object_clean, comp_clean, bounds_fin, nullsafe.
   split.
   { intros Hn. rewrite Hn in H. cbn [negb orb] in H. apply andb_true_iff in H. destruct H as [H Hc]. apply andb_true_iff in H. destruct H as [H Ho].
     apply andb_true_iff in H. destruct H as [Ha Hb].
@@ -118,12 +125,53 @@ Proof.
     split; [revert Hb; destruct (s_any_of s); [reflexivity | discriminate]|].
     split; [revert Ho; destruct (s_one_of s); [reflexivity | discriminate] | revert Hc; destruct (s_not s); [discriminate | reflexivity]]. }
   split; [revert L13; destruct (s_ref s); [discriminate | reflexivity]|].
+  split; [apply negb_true_iff; exact L11|].
+  split; [apply (forallb_Forall _ _ _ (fun e He => jd_b_sound _ e He) L10)|].
+  split; [apply orb_true_iff in L9; destruct L9 as [E | E]; [left; apply Z.eqb_eq; exact E | right; exact E]|].
   split.
-  { apply orb_true_iff in L12. destruct L12 as [E | E].
-    - apply orb_true_iff in E. destruct E as [E | E]; [left; apply Z.eqb_eq; exact E | right; left; exact E].
-    - destruct (contains k_number (s_types s) || contains k_integer (s_types s)) eqn:En; [right; left; reflexivity|].
-      right. right. apply andb_true_iff in E. destruct E as [E1 E2]. split; [reflexivity|]. split; [exact E1|].
-      intros Ha. rewrite Ha in E2. exact E2. }
+  { split; [apply orb_true_iff in L8; destruct L8 as [E | E]; [left; revert E; destruct (s_items_one s); [discriminate | reflexivity] | right; revert E; destruct (s_items_tuple s); [discriminate | reflexivity]]|].
+    split; [intros E; rewrite E in L7; discriminate|].
+    intros sa E. rewrite E in L6. discriminate. }
+  split.
+  { split; [apply andb_true_iff in L5; destruct L5 as [P1 P2]; split; [apply (forallb_Forall _ _ _ (fun pp Hpp => Hpp) P1) | apply nodup_b_sound; exact P2]|].
+    split; [intros k ps Hin Hd Hr; pose proof (proj1 (forallb_forall _ _) L4 (k, ps) Hin) as E; cbn [fst snd] in E;
+            apply orb_true_iff in E; destruct E as [E | E]; [destruct (s_default ps); [discriminate | apply Hd; reflexivity]|];
+            apply negb_true_iff in E; assert (E' : existsb (Z.eqb k) (s_required s) = true) by (apply existsb_exists; exists k; split; [exact Hr | apply Z.eqb_refl]); congruence|].
+    split; [apply nodup_b_sound; exact L3|].
+    intros sa E. rewrite E in L2. discriminate. }
+  split; [apply nodup_b_sound; exact L1|].
+  split; [intros m E; rewrite E in L0; exact L0 | intros m E; rewrite E in L; exact L].
+Qed.
+
+(* the same without the condition on formats, which the recursive theorem asks of (schema, value) pairs (AgreementRec.fits_b) *)
+Definition local_clean0_b (s : schema) : bool :=
+  (negb allow_null || (is_nil_b (s_all_of s) && is_nil_b (s_any_of s) && is_nil_b (s_one_of s) && is_none (s_not s))) &&
+  is_none (s_ref s) && negb (s_nullable s) &&
+  forallb (fun e => jd_b (S (goval_depth e)) e) (s_enum s) &&
+  (Z.eqb (s_pattern s) 0 || o_re_ok OR (s_pattern s)) &&
+  (* arrays *)
+  (is_none (s_items_one s) || is_none (s_items_tuple s)) &&
+  negb (match s_items_tuple s with Some [] => true | _ => false end) &&
+  negb (match s_add_items s with Some (false, Some _) => true | _ => false end) &&
+  (* objects *)
+  (forallb (fun pp => o_re_ok OR (fst pp)) (s_pat_props s) && nodup_b (map fst (s_pat_props s))) && forallb (fun kp => is_none (s_default (snd kp)) || negb (existsb (Z.eqb (fst kp)) (s_required s))) (s_props s) && nodup_b (map fst (s_props s)) &&
+  negb (match s_add_props s with Some (false, Some _) => true | _ => false end) &&
+  (* composition *)
+  nodup_b (map fst (s_deps s)) &&
+  (* numbers *)
+  (match s_maximum s with Some m => fin_b m | None => true end) && (match s_minimum s with Some m => fin_b m | None => true end).
+
+Lemma local_clean0_b_sound s : local_clean0_b s = true -> local_clean0 finP allow_null allow_arr OR s.
+Proof.
+  intros H. unfold local_clean0_b in H. repeat (apply andb_true_iff in H; let H' := fresh "L" in destruct H as [H H']).
+  unfold local_clean0, array_clean, object_clean, comp_clean, bounds_fin, nullsafe.
+  split.
+  { intros Hn. rewrite Hn in H. cbn [negb orb] in H. apply andb_true_iff in H. destruct H as [H Hc]. apply andb_true_iff in H. destruct H as [H Ho].
+    apply andb_true_iff in H. destruct H as [Ha Hb].
+    split; [revert Ha; destruct (s_all_of s); [reflexivity | discriminate]|].
+    split; [revert Hb; destruct (s_any_of s); [reflexivity | discriminate]|].
+    split; [revert Ho; destruct (s_one_of s); [reflexivity | discriminate] | revert Hc; destruct (s_not s); [discriminate | reflexivity]]. }
+  split; [revert L12; destruct (s_ref s); [discriminate | reflexivity]|].
   split; [apply negb_true_iff; exact L11|].
   split; [apply (forallb_Forall _ _ _ (fun e He => jd_b_sound _ e He) L10)|].
   split; [apply orb_true_iff in L9; destruct L9 as [E | E]; [left; apply Z.eqb_eq; exact E | right; exact E]|].
